@@ -20,6 +20,9 @@ VERIF = os.path.dirname(os.path.dirname(os.path.abspath(__file__)))
 REPO = os.environ.get("MICI_REPO", "/repo")
 SRC = os.path.join(REPO, "src")
 NATIVE_PY = os.environ.get("MICI_NATIVE_PY", "/venv/bin/python")
+# where evidence/ and replays/generated/ are written; only the seed runner (tools/run_seeds.py) overrides it so that
+# parallel runs against scratch copies of the repository do not overwrite the committed evidence of /repo itself
+OUT = os.environ.get("MICI_VERIF_OUT", VERIF)
 
 DISCHARGED, FAILED, UNKNOWN, ERROR = "discharged", "failed", "unknown", "error"
 
@@ -146,9 +149,9 @@ class Run:
         print(f"relocked {len(led)} obligations -> {self._ledger_path()}")
 
     def _write_replay(self, ob, reproduced, native_out, script_path=None, args=None):
-        os.makedirs(os.path.join(VERIF, "replays", "generated"), exist_ok=True)
+        os.makedirs(os.path.join(OUT, "replays", "generated"), exist_ok=True)
         safe = re.sub(r"[^A-Za-z0-9_.-]+", "_", ob.id)
-        path = os.path.join(VERIF, "replays", "generated", safe + ".json")
+        path = os.path.join(OUT, "replays", "generated", safe + ".json")
         rec = {"property": self.prop, "failed_obligation": ob.id, "backend": ob.backend,
                "verifier_output": ob.detail, "witness": _jsonable(ob.witness),
                "native_replay": {"script": script_path, "args": args,
@@ -269,8 +272,8 @@ class Run:
               "coverage": coverage, "assumptions": self.assumptions, "wall_s": round(wall, 3),
               "violations": len(violations), "known_findings": [o.id for o, _ in known],
               "violation_records": vio_records}
-        os.makedirs(os.path.join(VERIF, "evidence"), exist_ok=True)
-        with open(os.path.join(VERIF, "evidence", f"{self.prop}.json"), "w") as f:
+        os.makedirs(os.path.join(OUT, "evidence"), exist_ok=True)
+        with open(os.path.join(OUT, "evidence", f"{self.prop}.json"), "w") as f:
             json.dump(ev, f, indent=1)
         for ln in lines:
             print(ln)
